@@ -32,10 +32,14 @@ Definition C20_interval_statement : Prop :=
           /\ read_interval "DAY" e = Some (false, [0%Z])).
 
 (* ---- JSON: one SQL string literal whose decoded content is the RFC 8259 text of the value ---- *)
+(*      under every keyword context with the standard literal quote — in particular under the
+        contexts of all ten query classes, whatever their identifier quote_char is ---- *)
 Definition C20_json_statement (frag : jvalue -> bool) : Prop :=
-  forall v, frag v = true ->
-    json_sql (Some "'") v = sql_quote (json_spec v)
-    /\ sql_decode (json_sql (Some "'") v) = Some (json_spec v).
+  (forall c v, cx_secondary c = Some "'" -> frag v = true ->
+     json_sql_ctx c v = sql_quote (json_spec v)
+     /\ sql_decode (json_sql_ctx c v) = Some (json_spec v))
+  /\ (forall name c, In (name, c) class_ctxs -> cx_secondary c = Some "'")
+  /\ List.length class_ctxs = 10.
 
 (* ---- Tuple / Array / Bracket: the dialect's bracket form, every element once and in order ---- *)
 Definition C20_seq_statement : Prop :=
@@ -74,7 +78,18 @@ Print Assumptions C20_quarters_drop_other_fields.
 (* strings without double quote, backslash, control characters and single quote; int and float
    leaves; string keys *)
 Theorem C20_json_on_fragment : C20_json_statement jfrag.
-Proof. intros v H. destruct (json_on_fragment v H) as (_ & E1 & E2). split; assumption. Qed.
+Proof.
+  split; [exact json_on_fragment_ctx|]. split; [|reflexivity].
+  intros name c Hin. destruct class_ctxs_single_quote as [A _]. rewrite forallb_forall in A.
+  specialize (A _ Hin). simpl in A. destruct (cx_secondary c) as [s|]; [|discriminate].
+  simpl in A. apply String.eqb_eq in A. congruence.
+Qed.
+
+(* the identifier quote of the context never reaches the JSON text *)
+Theorem C20_json_text_independent_of_quote_char : forall q q' sq aq aq' d d' v,
+  json_sql_ctx (mkCtx q sq aq d) v = json_sql_ctx (mkCtx q' sq aq' d') v.
+Proof. reflexivity. Qed.
+Print Assumptions C20_json_text_independent_of_quote_char.
 Print Assumptions C20_json_on_fragment.
 
 Theorem C20_seq_holds : C20_seq_statement.
@@ -117,7 +132,10 @@ Proof. repeat split; reflexivity. Qed.
 Print Assumptions C20_json_refuted_witnesses.
 
 Theorem C20_json_refuted : ~ C20_json_statement (fun _ => true).
-Proof. intros H. destruct (H (JStr "it's") eq_refl) as [_ E]. vm_compute in E. discriminate E. Qed.
+Proof.
+  intros (H & _). destruct (H (mkCtx (Some """") (Some "'") None None) (JStr "it's") eq_refl eq_refl) as [_ E].
+  vm_compute in E. discriminate E.
+Qed.
 Print Assumptions C20_json_refuted.
 
 Theorem C20_refuted : ~ C20_full_statement.
@@ -145,7 +163,9 @@ Print Assumptions C20_example_interval.
 
 Example C20_example_json :
   let v := JDict [(JStr "a", JList [JInt (-1); JStr "x y"; JFloat "1.5e+20"; JDict []])] in
-  jfrag v = true /\ json_sql (Some "'") v = "'{""a"":[-1,""x y"",1.5e+20,{}]}'".
+  jfrag v = true /\ json_sql (Some "'") v = "'{""a"":[-1,""x y"",1.5e+20,{}]}'"
+  /\ map (fun e => json_sql_ctx (snd e) (JDict [(JStr "a", JStr "foo")])) class_ctxs
+     = repeat "'{""a"":""foo""}'" 10.
 Proof. vm_compute. repeat split. Qed.
 Print Assumptions C20_example_json.
 
